@@ -180,6 +180,9 @@ func (r *Receiver) SegmentHandlerFunc(w http.ResponseWriter, req *http.Request) 
 			}
 			if trd.timeScaleOut != trd.timeScaleIn {
 				*defaultDur = *defaultDur * trd.timeScaleOut / trd.timeScaleIn
+				if tfhd.HasDefaultSampleDuration() { // the stored fragment counts in timeScaleOut
+					tfhd.DefaultSampleDuration = *defaultDur
+				}
 			}
 
 			if rsd.chunkNr == 0 {
